@@ -204,16 +204,19 @@ func invDepth(p *Parser) bool { return 0 <= p.depth && p.depth <= 64 }
 // Not verified (long hand-written scanners over strings.Builder); their effect on the scan state is assumed:
 
 //@ func (*Parser).parseASCIIStrict
-//@ trusted
+//@ requires invParser(p) && 0 <= size && size <= 2147483647
 //@ modifies p.data, p.pos
-//@ trusts [inv] invParser(p) && p.pos >= old(p.pos)
+//@ ensures [inv] invParser(p) && p.pos >= old(p.pos)
+//@ loop 1 invariant [same] invParser(p) && p.pos == old(p.pos) && zzSameStr(p.data, old(p.data))
+//@ loop 2 invariant [same] invParser(p) && p.pos == old(p.pos) && zzSameStr(p.data, old(p.data))
 
 //@ func (*Parser).parseASCIIFast
-//@ trusted
+//@ requires invParser(p) && 0 <= maxSize && maxSize <= 2147483647
 //@ modifies p.data, p.pos
-//@ trusts [inv] invParser(p) && p.pos >= old(p.pos)
+//@ ensures [inv] invParser(p) && p.pos >= old(p.pos)
+//@ loop 1 invariant [i] 0 <= i && i <= len(p.data) && invParser(p) && p.pos >= old(p.pos)
 
 //@ func (*Parser).parseItemType
-//@ trusted
+//@ requires invParser(p)
 //@ modifies p.data, p.pos
-//@ trusts [inv] invParser(p) && p.pos >= old(p.pos)
+//@ ensures [inv] invParser(p) && p.pos >= old(p.pos)
